@@ -19,7 +19,7 @@ from __future__ import annotations
 
 import itertools
 
-from .. import defs, impl, refimpl, s2_ptr, srcplan
+from .. import defs, impl, refimpl, s1_mixed, s2_ptr, srcplan
 from ..common import A, Result, mkrng, sx
 from ..structprops import Engine, load, real_parse, small_unit_bits, rand_bytes, has_eof
 
@@ -273,6 +273,51 @@ def run(env) -> Result:
                 probe(tree, endian, align, ptr)
         if len(eng.lines) > 4000:
             eng.flush()
+    # (d) mixed alignment modes and start positions: named sub-definitions loaded with their own `align` flag on one instance (both
+    # readers), parsed from stream positions 0 and from aligned positions behind a prefix; the two readers must agree on value,
+    # consumed bytes and recorded sizes wherever both return (the same definition, the same bytes, only the reader differs)
+    mrnd = mkrng(env["seed"], "c03-mixed")
+    for _ in range(180 if tier == "quick" else 5000):
+        g = defs.Gen(mrnd, max_depth=mrnd.choice([1, 2, 2, 3]))
+        if mrnd.random() < 0.35:
+            plan, tree2 = s1_mixed.directed_dynamic(mrnd, g)
+        else:
+            tree = s1_mixed.with_nested(mrnd, g, g.struct(), dyn_p=0.5)
+            plan, tree2 = defs.hoist(tree, mrnd, p=0.7, top_align=mrnd.random() < 0.5, mixed=True)
+        endian, ptr = mrnd.choice("<>"), mrnd.choice(["uint64", "uint32", "uint16", "uint8"])
+        views = []
+        for compiled in (False, True):
+            sess = impl.Session(endian=endian, pointer=ptr)
+            try:
+                views.append((sess, s1_mixed.load_plan(sess, plan, compiled=compiled)))
+            except Exception as e:  # noqa: BLE001
+                views.append((sess, e))
+        (si, Li), (sc_, Lc) = views
+        if isinstance(Li, Exception) or isinstance(Lc, Exception):
+            if isinstance(Li, Exception) != isinstance(Lc, Exception):
+                eng.report(f"a mixed-alignment definition loads with one reader mode only: interpreted {Li!r}, compiled {Lc!r}", {"history": si.script()}, [])
+            res.feat("family-d:definition-rejected")
+            continue
+        res.feat("family-d:mixed-alignment-definitions" + (":uniform" if not s1_mixed.is_mixed(plan) else ""))
+        Ti, Tc = Li.T, Lc.T
+        size = Ti.size if Ti.size is not None else 48
+        salign = max(1, Ti.alignment or 1)
+        for _i in range(3):
+            body = rand_bytes(mrnd, size + mrnd.choice([0, 5, 20]))
+            for pos in (0, salign, 3 * salign):
+                data = bytes(mrnd.randrange(256) for _ in range(pos)) + body
+                wi, _ = real_parse(Ti, data, pos)
+                wc, _ = real_parse(Tc, data, pos)
+                res.count(("mixed", si.script(), endian, ptr, pos, body), True)
+                cd = s1_mixed.case_data(sc_, data=data, pos=pos, interpreted_history=si.script())
+                if wi[0] == "ok" and wc[0] == "ok":
+                    if not impl.same_val(wi[1], wc[1]) or wi[2] != wc[2] or wi[3] != wc[3]:
+                        eng.report(f"mixed alignment, start {pos}: compiled gives {str(wc)[:260]}, interpreted gives {str(wi)[:260]}", cd, [])
+                elif wi[0] != wc[0]:
+                    if (wi[0] == "err" and wi[1] != "EOFError") or (wc[0] == "err" and wc[1] != "EOFError") or (Ti.size is not None and len(body) >= Ti.size + 16):
+                        eng.report(f"mixed alignment, start {pos}: compiled gives {str(wc)[:200]}, interpreted gives {str(wi)[:200]}", cd, [])
+                    else:
+                        res.feat("family-d:short-input:one-reader-raises")
     eng.flush()
     res.notes.append(f"{nplans[0]} generated sources translated to plans and validated")
     res.notes.append(f"{ncompiles[0]} structures compiled by the Lean model of the compiler and compared with the real plan / fallback")
